@@ -624,6 +624,16 @@ func checkIdentityMerge(c *Ctx, eff *effSummaries) {
 		c.Violate("R2.1", "identity.Identity.Merge:expected:UpdateRef", pos, "Merge no longer moves the identity ref")
 		return
 	}
+	// every version of the other history is visited: the loop over them ends by exhaustion or by a refusal
+	{
+		exits, loops := earlyLoopExits(fn)
+		bad := ""
+		for _, e := range exits {
+			bad = fmt.Sprintf("the loop at %s is left at %s before every remote version was visited", w.InstrPos(firstPosInstr(e.Header)), w.InstrPos(firstPosInstr(e.To)))
+		}
+		c.Check(loops >= 1 && bad == "", "R9.2", "identity.Identity.Merge:visits-every-remote-version", pos, fmt.Sprintf("%d loop(s), left only at exhaustion or to a failing return", loops),
+			bad+": the identity advances by fewer versions than the remote holds while the merge reports an update — a key removal published in a later version does not reach this replica")
+	}
 	// conditions guarding the ref sites (true edge dominates the site)
 	guardConds := map[ssa.Value]bool{}
 	for _, s := range sites {
